@@ -406,6 +406,23 @@ func (ex *Exec) harnessIntrinsic(fn *ssa.Function, args []Val) (Val, bool) {
 			r.b = append(r.b, Ite(And(Cmp("bvuge", b, BVC(8, 'A')), Cmp("bvule", b, BVC(8, 'Z'))), BVBin("bvadd", b, BVC(8, 0x20)), b))
 		}
 		return r, true
+	case "vTableKeys":
+		var keys []string
+		for g, o := range ex.globals {
+			if g.Name() == "sqlKeywords" {
+				if m, ok := o.v.(*MapV); ok && m != nil {
+					for k := range m.m {
+						keys = append(keys, k)
+					}
+				}
+			}
+		}
+		sort.Strings(keys)
+		sv := &SliceV{len: len(keys), cap: len(keys)}
+		for _, k := range keys {
+			sv.arr = append(sv.arr, &Obj{v: strOf(k)})
+		}
+		return sv, true
 	case "vIsKeyword":
 		// Bool term: the (already case-folded by the caller or not) string equals some key of sqlKeywords, compared after ASCII upper-casing
 		return ex.keyMember(args[0].(*StrV), false), true
